@@ -15,8 +15,9 @@
        for (...; @outer) { ... }                                                         <- next outer block
      }
 
-   An outer tuple is identified by its row-major linear index lo (o0 = lo / N1, o1 = lo mod N1), an inner
-   tuple by li (i0 = li / M1, i1 = li mod M1); nested loops run in increasing linear index.  Values are C
+   An outer tuple is identified by its row-major linear index lo (up to three nested loops: o0 = lo / (N1*N2),
+   o1 = (lo mod (N1*N2)) / N2, o2 = lo mod N2), an inner tuple by li in the same way; nested loops run in increasing
+   linear index.  Values are C
    ints: + - * wrap to 32 bits (the kernels are compiled with -fwrapv). *)
 From Coq Require Import List ZArith Bool Arith.
 From OV.C20 Require Import Util.
@@ -77,8 +78,8 @@ Inductive stmt :=
 (* what a thread needs to know besides the memories *)
 Record senv := {
   e_args : list Z;        (* scalar arguments *)
-  e_n1 : Z;               (* extent of the second @outer loop (1 when there is one) *)
-  e_m1 : Z;               (* extent of the second @inner loop (1 when there is one) *)
+  e_od : list Z;          (* extents of the nested @outer loops, outer-most first (1 to 3) *)
+  e_id : list Z;          (* extents of the nested @inner loops, outer-most first (1 to 3) *)
   e_mi : nat;             (* inner tuples per outer tuple *)
   e_kinds : list gkind;
   e_sst : list nat        (* strides of the @shared arrays *)
@@ -97,6 +98,16 @@ Definition sh_idx (E : senv) (li s d : nat) : Z := Z.of_nat li * Z.of_nat (sstri
 Definition bound_eval (E : senv) (b : bound) : Z :=
   match b with BConst z => z | BArg n => nth n (e_args E) 0 end.
 
+(* component k of the row-major linear index x over the extents dims:
+   x = (c0*d1 + c1)*d2 + c2  gives  c0 = x / (d1*d2), c1 = (x mod (d1*d2)) / d2, c2 = x mod d2 *)
+Definition prodZ (l : list Z) : Z := fold_right Z.mul 1 l.
+Fixpoint comp (dims : list Z) (k : nat) (x : Z) : Z :=
+  match dims, k with
+  | [], _ => x
+  | _ :: r, O => x / prodZ r
+  | _ :: r, S k' => comp r k' (x mod prodZ r)
+  end.
+
 Definition store := nat -> Z.
 Definition sset (f : store) (x : nat) (v : Z) : store := fun y => if Nat.eqb y x then v else f y.
 
@@ -108,10 +119,8 @@ Section Eval.
     | EConst z => z
     | ELoc x => lc x
     | EExc x => ex x
-    | EOut O => Z.of_nat lo / e_n1 E
-    | EOut _ => Z.of_nat lo mod e_n1 E
-    | EInn O => Z.of_nat li / e_m1 E
-    | EInn _ => Z.of_nat li mod e_m1 E
+    | EOut k => comp (e_od E) k (Z.of_nat lo)
+    | EInn k => comp (e_id E) k (Z.of_nat li)
     | EArg n => nth n (e_args E) 0
     | EBin o a b => binop_eval o (eval a) (eval b)
     | EModP a c => (eval a) mod c
